@@ -326,8 +326,8 @@ def run(ctx):
                 # three operations: a partial map leaves numeric neighbours (which do not commute) next to a still-symbolic gate
                 dict(MaxOps=3, MaxBinds=1, OpSel="{3, 6, 14, 16}", MapSel="{1, 2}")]
     else:
-        runs = [dict(MaxOps=1, MaxBinds=2, OpSel=allops, MapSel=allmaps), dict(MaxOps=2, MaxBinds=2, OpSel="{1, 2, 3, 4, 5, 7, 8, 10, 12, 15, 16, 17}", MapSel="{1, 3, 5, 6, 8, 9, 10, 11, 13}"),
-                dict(MaxOps=2, MaxBinds=1, OpSel=allops, MapSel=allmaps), dict(MaxOps=3, MaxBinds=1, OpSel="{1, 2, 3, 4, 7, 10, 12, 14, 16, 18}", MapSel="{1, 2, 3, 6, 10, 13}")]
+        runs = [dict(MaxOps=1, MaxBinds=2, OpSel=allops, MapSel=allmaps), dict(MaxOps=2, MaxBinds=2, OpSel="{1, 2, 3, 4, 7, 8, 10, 12, 15, 17}", MapSel="{1, 3, 5, 6, 8, 10, 13}"),
+                dict(MaxOps=2, MaxBinds=1, OpSel=allops, MapSel=allmaps), dict(MaxOps=3, MaxBinds=1, OpSel="{1, 3, 6, 7, 14, 16, 18}", MapSel="{1, 2, 3, 6, 10, 13}")]
     ctx.bounds = {"run%d" % i: r for i, r in enumerate(runs)}
 
     class _R:
